@@ -491,6 +491,56 @@ def files_case(case):
         shutil.rmtree(d, ignore_errors=True)
 
 
+def fault_case(case):
+    """a cleanup registered at feature / rule / scenario level raises when its layer ends, or one hook invocation
+    raises: the statuses written by the JSON formatter (read at eof / scenario end) must be the FINAL ones of the
+    model, and plain / progress must still show every processed step once"""
+    prog, cleanups, faults = case
+    cfg = dict(SWITCHES["default"])
+    outs = {}
+
+    def fm(config, o2p):
+        from behave.formatter import _registry
+        from behave.formatter.base import StreamOpener
+        res = []
+        for name in ("json", "plain", "progress3"):
+            st = io.StringIO()
+            outs[name] = st
+            res.append(_registry.select_formatter_class(name)(StreamOpener(stream=st), config))
+        return res
+    obs = harness.run_case(prog, cfg, cleanups=cleanups, faults=faults, hooks=True, formatters=fm, keep_model=True)
+    ref = refrun.predict(prog, cfg, cleanups=cleanups, faults=faults, hooks=True)
+    v = []
+    trig = "raising-cleanup" if cleanups else "hook-fault"
+    if obs["escaped"]:
+        v.append(({"subcheck": "run", "clause": "exception-escapes-run", "exc": obs["escaped"], "trigger": trig},
+                  "run() raised %s: %s" % (obs["escaped"], obs.get("escaped_msg"))))
+        return {"v": v, "dg": obs["escaped"], "out": "escaped"}
+    feats, o2p, p2o, runner, config = obs["model"]
+    v += check_json(outs["json"].getvalue(), "json", prog, ref, obs, True, (feats, o2p, p2o))
+    for d, msg in v:
+        d["trigger"] = trig
+    return {"v": v, "nt": digest(case), "out": ("fault", trig, obs["verdict"]),
+            "dg": (obs["verdict"], mask(outs["json"].getvalue()), mask(outs["plain"].getvalue()))}
+
+
+def fault_cases(tier):
+    from vlib import runcases
+    quick = tier == "quick"
+    progs = [
+        (P.F((P.S(("pass", "pass")), P.R((P.S(("pass",)), P.O((("pass",), ("pass",)))), bg=("pass",))), bg=("pass",)),
+         P.F((P.S(("pass",)),))),
+        (P.F((P.O((("pass",),)), P.S(("pass", "fail")))), P.F((P.R((P.S(("pass",)),)),))),
+    ]
+    for prog in progs:
+        for trig, layer in runcases.cleanup_sites((prog[0],)):
+            yield (prog, {trig: [("c0", True, layer)]}, None)
+        if not quick:
+            n = runcases.hook_count(prog, {})
+            for k in range(n):
+                yield (prog, None, {k: "exc"})
+
+
 def skipping_case(case):
     """user code EXCLUDES an element at run time (a hook calls feature.skip() / rule.skip() / scenario.skip() on the
     element it is called for, at the k-th hook invocation): whatever that does to the run, the event stream stays a
@@ -673,6 +723,8 @@ def run(ctx):
     ctx.bounds = {"formatters": len(FORMATTERS), "lineup_size": "1-2 all ordered; 3 over a 5-formatter core",
                   "deviations": 1 if ctx.quick else 2, "switch_combinations": len(SWITCHES)}
     ctx.sweep(run_case, cases(ctx.tier), chunk=24, name="programs x formatter line-ups x switches")
+    ctx.sweep(fault_case, fault_cases(ctx.tier), chunk=8,
+              name="raising cleanups at every level (thorough: every hook fault): JSON statuses are the final ones")
     ctx.sweep(skipping_case, skipping_cases(ctx.tier), chunk=16,
               name="a hook excludes its element at run time (skip()): event brackets, JSON and plain stay consistent")
     ctx.sweep(files_case, files_cases(ctx.tier), chunk=16, name="-f/-o pairs through Configuration and make_formatters")
